@@ -14,7 +14,7 @@ EXPLANATION = 'rows-iff-spec and spec-iff-automaton theorems (unbounded in T) ab
 
 
 def scenarios(seed, tier):
-    n = 400 if tier == 'quick' else 4000
+    n = 800 if tier == 'quick' else 4800
     rnd = random.Random(seed * 7919 + 6)
     kinds = ['build', 'build', 'build', 'pattern', 'portfolio']
     for i in range(n):
